@@ -23,7 +23,7 @@ ASSUMPTIONS = [
     "added/discarded",
     "SortedSet.pop() may remove any element (set.pop contract); SortedMap.popitem() any pair",
 ]
-NCASES = {"quick": 8000, "thorough": 200000}
+NCASES = {"quick": 8000, "thorough": 400000}
 NSHARDS = 16
 SHARD_TIMEOUT = {"quick": 600, "thorough": 3600}
 MOD = "vf.checks.c09"
